@@ -210,6 +210,11 @@ func (rc *RPCClient) SyncRequest(ctx context.Context, rpcReq *RPCRequest) (rpcRe
 		}
 		log.L(ctx).Errorf("RPC[%s] <-- [%d]: %s", rpcTraceID, res.StatusCode(), errLog)
 		err := errors.New(rpcMsg)
+		if rpcRes.Error == nil || rpcRes.Error.Code == 0 {
+			// The backend gave us an error status without a JSON/RPC error we can pass back (empty body,
+			// non-JSON body, or no error code) - so we build one, as on the other error paths
+			rpcRes = RPCErrorResponse(err, rpcReq.ID, RPCCodeInternalError)
+		}
 		return rpcRes, err
 	}
 	log.L(ctx).Infof("RPC[%s] <-- %s [%d] OK (%.2fms)", rpcTraceID, rpcReq.Method, res.StatusCode(), float64(time.Since(rpcStartTime))/float64(time.Millisecond))
